@@ -79,13 +79,40 @@ def run(spec, tier, seed, replay=None):
         for l in open(os.path.join(outdir, "cases.jsonl")):
             o = json.loads(l)
             cases[o["index"]] = o
+
+    # 4b. failing-input search: model and implementation disagree (or a proof broke) but the oracle saw no
+    # failure yet -> vary the disagreeing cases and evaluate the oracle on the variants (implementation only).
+    searched = 0
+    if not unknown and (mismatches or not proof_ok) and binp and spec.get("search") and not replay:
+        sdir = os.path.join(outdir, "search")
+        os.makedirs(sdir, exist_ok=True)
+        seeds_file = os.path.join(sdir, "seeds.jsonl")
+        with open(seeds_file, "w") as f:
+            for i, _ in mismatches[:50]:
+                if i in cases:
+                    f.write(json.dumps(cases[i]) + "\n")
+        cmd = [binp, "-seed", str(seed + 1), "-n", str(spec["search"]["n"]), "-out", sdir, "-repo", C.REPO,
+               "-tier", tier, "-verif", C.VERIF, "-corpus", "", "-search", seeds_file] + spec.get("extra_args", [])
+        try:
+            rc, out = C.sh(cmd, cwd=C.VERIF, env=C.GOENV, timeout=spec["search"].get("timeout", 600))
+            sr = json.load(open(os.path.join(sdir, "run.json")))
+            searched = sr.get("evaluations", 0)
+            found = [f for f in sr.get("failures", []) if f.get("signature") not in known_sigs]
+            if found:
+                unknown = found
+                failures = failures + found
+                notes.append("failing input found by the search around %d disagreeing cases (%d variants)" % (len(mismatches), searched))
+        except Exception as e:
+            notes.append("failing-input search did not complete: %s" % e)
     stamp = "%s-%s-%d" % (pid, tier, seed)
+    for old in glob.glob(os.path.join(replays, stamp + "-*.json")):
+        os.remove(old)
     if unknown:
         violations = len(unknown)
         f = unknown[0]
         path = os.path.join(replays, "%s-oracle-%s.json" % (stamp, f.get("index", 0)))
         C.write_json(path, {"property": pid, "kind": "oracle", "seed": seed, "tier": tier,
-                            "signature": f.get("signature"), "detail": f.get("detail"),
+                            "signature": f.get("signature"), "detail": f.get("detail"), "notes": notes,
                             "case": f.get("case"), "others": [{"index": g.get("index"), "signature": g.get("signature"),
                                                                 "detail": g.get("detail")} for g in unknown[1:20]]})
         lines.append("VIOLATION property=%s replay=%s" % (pid, path))
@@ -105,8 +132,8 @@ def run(spec, tier, seed, replay=None):
         path = os.path.join(replays, "%s-unproved.json" % stamp)
         C.write_json(path, {"property": pid, "kind": "no-failing-input-found", "seed": seed, "tier": tier,
                             "no_longer_checks": what,
-                            "searched": "oracle evaluated on %d implementation runs (corpus + generated), none failed"
-                                        % (run_info.get("evaluations", 0) if run_info else 0),
+                            "searched": "oracle evaluated on %d implementation runs (corpus + generated) and %d variants of the disagreeing cases, none failed"
+                                        % (run_info.get("evaluations", 0) if run_info else 0, searched),
                             "case": (cases.get(mismatches[0][0]) or {}).get("case") if mismatches else None})
         lines.append("VIOLATION property=%s replay=%s no-failing-input-found" % (pid, path))
 
